@@ -836,7 +836,8 @@ qb_ipcs_dispatch_connection_request(int32_t fd, int32_t revents, void *data)
 		if (res > 0) {
 			avail--;
 		}
-	} while (avail > 0 && res > 0 && !c->fc_enabled);
+	} while (avail > 0 && res > 0 && !c->fc_enabled &&
+		 c->state == QB_IPCS_CONNECTION_ESTABLISHED);
 
 	if (c->service->needs_sock_for_poll && recvd > 0) {
 		res2 = qb_ipc_us_recv(&c->setup, bytes, recvd, -1);
